@@ -457,7 +457,7 @@ def gen_parse_cases(r, tier):
         msg = r.choice(['"line 9 column 10: model is not available"', '"x"', "", '"the context is unsatisfiable"', '"unsat <1>"', "model\tis not (available"])
         return "(" + r.choice(["", " ", "\n"]) + "error" + r.choice(ws_pool[1:]) + msg + ")" + r.choice(ws_pool)
 
-    n = 300 if tier == "quick" else 6000
+    n = 300 if tier == "quick" else 3000
     for _ in range(n):
         ids = [rid() for _ in range(r.choice([0, 1, 1, 2, 3, 4, 7, 12]))]
         names = ""
@@ -484,7 +484,7 @@ def gen_parse_cases(r, tier):
     cases.append(("unsat\n(error \"a) unsat (<3>)", "any", "error-mentions-core"))
     # random mutations of well-formed replies: model vs implementation only
     alphabet = list("unsat()<>0123456789 \n\t\"erro") + ["\xa0", " ", "x", "|"]
-    base = [c[0] for c in cases if c[2] == "wellformed"][: (200 if tier == "quick" else 4000)]
+    base = [c[0] for c in cases if c[2] == "wellformed"][: (200 if tier == "quick" else 2500)]
     for t in base:
         s = list(t)
         for _ in range(r.choice([1, 1, 2, 3])):
@@ -501,7 +501,7 @@ def gen_parse_cases(r, tier):
 
 
 def gen_check_cases(r, tier):
-    n = 400 if tier == "quick" else 5000
+    n = 400 if tier == "quick" else 3000
     pool = [str(i) for i in range(1, 14)] + ["07", "7 ", "12345678901234567890"]
     cases = []
     for _ in range(n):
@@ -526,7 +526,7 @@ def gen_histories(r, tier):
     truth with a correct core (possibly rendered oddly / empty / missing); 'adversarial': arbitrary replies
     (tie only); 'unstable': an id is re-used for another literal (the refuted theorem's scenario)."""
     hs = []
-    n = 80 if tier == "quick" else 1500
+    n = 80 if tier == "quick" else 800
     for h in range(n):
         fam = r.choice(["truthful"] * 5 + ["adversarial"] * 2 + ["unstable"])
         nv = 4
@@ -598,7 +598,7 @@ def gen_histories(r, tier):
 
 
 def gen_trees(r, tier):
-    n = 12 if tier == "quick" else 300
+    n = 12 if tier == "quick" else 120
     kinds = ["ult", "uge", "yeq", "yne", "mask", "sum", "xy", "divgt", "diveq"]
     out = []
 
@@ -700,7 +700,7 @@ def run(rep, tier):
                 fail("broken-tie", f"check_unsat_cores(ids={ids}, cores={cores}): implementation {impl[i]}, model {mod[i]}", {"kind": "check", "ids": ids, "cores": cores})
 
         # ---- dump
-        dcs = [("(declare-fun x () Bool)\n(assert (=> |5| x))\n" * r.randint(0, 2) + r.choice(["", "; c\n"]), [str(r.randrange(1, 10 ** r.randint(1, 7))) for _ in range(r.randint(0, 5))]) for _ in range(60 if tier == "quick" else 600)]
+        dcs = [("(declare-fun x () Bool)\n(assert (=> |5| x))\n" * r.randint(0, 2) + r.choice(["", "; c\n"]), [str(r.randrange(1, 10 ** r.randint(1, 7))) for _ in range(r.randint(0, 5))]) for _ in range(60 if tier == "quick" else 300)]
         impl = pool.apply(impl_dump_batch, (dcs,))
         mod = m.parallel_batch([("c16_dump", [len(smt)] + [ord(c) for c in smt] + enc_strlist(ids)) for smt, ids in dcs]) if m else None
         for i, (smt, ids) in enumerate(dcs):
@@ -838,7 +838,10 @@ def run(rep, tier):
     # ---- L3: python -m halmos on fabricated tests, cache on vs off, monitor inside
     from harness.props import C16_e2e
 
-    C16_e2e.run_e2e(rep, tier, r, fail)
+    if os.environ.get("C16_SKIP_E2E"):          # developer knob (mutation campaigns); never set by bin/check
+        rep.coverage["L3_skipped"] = True
+    else:
+        C16_e2e.run_e2e(rep, tier, r, fail)
     _t(rep, "e2e")
 
     rep.coverage["traces_validated_against_impl"] = rep.evaluations
